@@ -648,8 +648,17 @@ pub unsafe extern "C" fn recvmsg(fd: c_int, msg: *mut msghdr, flags: c_int) -> s
 pub unsafe extern "C" fn recv(fd: c_int, buf: *mut c_void, len: size_t, _flags: c_int) -> ssize_t {
     let (pk, r) = wait_packet(fd);
     if pk < 0 {
+        if r == 0 {
+            // End-of-stream is final.  A caller that answers it by reading again (and again) is waiting for
+            // something that can never arrive: the third such read in a row is treated like a blocking wait.
+            EOF_RECVS += 1;
+            if EOF_RECVS >= 3 {
+                block();
+            }
+        }
         return r;
     }
+    EOF_RECVS = 0;
     let pk = pk as usize;
     let plen = K.pk[pk].len;
     let n = if plen < len { plen } else { len };
@@ -981,6 +990,8 @@ pub unsafe fn ep_any_undelivered() -> bool {
     any
 }
 pub static mut LOST_WAKEUP: bool = false;
+/// consecutive end-of-stream results of plain recv() (the call the crate uses for follow-up fragments)
+pub static mut EOF_RECVS: u8 = 0;
 #[no_mangle]
 pub unsafe extern "C" fn epoll_wait(_ep: c_int, evs: *mut libc::epoll_event, max: c_int, _to: c_int) -> c_int {
     let w = EP.waits;
@@ -1168,6 +1179,9 @@ pub fn object_of(fd: c_int) -> i64 {
 }
 pub fn nopen() -> usize {
     unsafe { open_fds() }
+}
+pub fn is_open(fd: c_int) -> bool {
+    unsafe { obj_of(fd) >= 0 }
 }
 pub fn nmapped() -> usize {
     unsafe { K.nmapped }
